@@ -31,6 +31,9 @@ func (c GCall) Full() string {
 // GModel is an abstract model: a list of methods (order = order in the code model).
 type GModel struct {
 	Methods []GMethod
+	// FilePaths: "" = no file recorded (abstract model), "per-class" = one source file per class,
+	// "shared" = every class of the model lies in one source file
+	FilePaths string
 }
 
 // ToDeps renders the abstract model as coca's code model (classes in order of first appearance).
@@ -42,6 +45,12 @@ func (g GModel) ToDeps() []core_domain.CodeDataStruct {
 		ds := by[key]
 		if ds == nil {
 			ds = &core_domain.CodeDataStruct{NodeName: m.Class, Package: m.Pkg, Type: "Class"}
+			switch g.FilePaths {
+			case "per-class":
+				ds.FilePath = "src/" + strings.ReplaceAll(m.Pkg, ".", "/") + "/" + m.Class + ".java"
+			case "shared":
+				ds.FilePath = "src/Everything.java"
+			}
 			by[key] = ds
 			order = append(order, key)
 		}
